@@ -30,6 +30,7 @@ typedef struct sim_config {
 	double spurious_wake_p; // per cond wait
 	double eintr_p;         // per interruptible syscall
 	double epoll_partial_p; // epoll_wait returns a strict subset
+	int    list_points;     // nni_list_first/next are scheduling points (unlocked list walks can be preempted)
 	// net
 	int      seg_mode;      // 0 full, 1 byte-at-a-time, 2 random 1..k, 3 mixed
 	int      seg_k;         // for mode 2
